@@ -1431,6 +1431,7 @@ func (c *cluster) markResizeInstructionComplete(complete *ResizeInstructionCompl
 
 	j.mu.Lock()
 	defer j.mu.Unlock()
+	verifResizeEvent(c, "gate:complete", j.ID, complete.Node.ID)
 
 	if j.isComplete() {
 		return fmt.Errorf("resize job %d is no longer running", j.ID)
